@@ -319,7 +319,10 @@ class HirFront:
     rec_callees: def-paths whose call means 'translate this sub-expression' (Vm::parse_expr).
     skip_callees / rule_callees: def-paths (or predicates) for implicit skip and rule calls."""
 
-    def __init__(self, fn=None, child_of=None, rec_callees=(), skip_callees=(), rule_callees=(), rule_fn_prefix=None):
+    def __init__(self, fn=None, child_of=None, rec_callees=(), skip_callees=(), rule_callees=(), rule_fn_prefix=None,
+                 crate=None, depth=0):
+        self.crate = crate       # when given, calls of crate-local helper functions are translated through their body
+        self.depth = depth
         self.child_of = child_of or {}
         self.rec = set(rec_callees)
         self.skipc = set(skip_callees)
@@ -358,6 +361,9 @@ class HirFront:
                 return ("skip",)
             if p in self.rulec:
                 return ("call", self.arg(n["args"][0]))
+            h = self.helper_term(p, [n["recv"]] + list(n["args"]))
+            if h is not None:
+                return h
             self.problems.append("method %s" % p)
             return ("unknown", p)
         if k == "Call":
@@ -373,6 +379,9 @@ class HirFront:
                     return ("rec", self.child_index(n["args"][0]), "dyn")
                 if c in self.rulec:
                     return ("call", self.arg(n["args"][0]))
+                h = self.helper_term(c, list(n["args"]))
+                if h is not None:
+                    return h
             self.problems.append("call %s" % (c,))
             return ("unknown", str(c))
         if k == "If":
@@ -395,6 +404,28 @@ class HirFront:
             self.problems.append("bare local %s" % n.get("name"))
         self.problems.append("node %s" % k)
         return ("unknown", str(k))
+
+    def helper_term(self, path, args):
+        """A call of a crate-local helper (e.g. a block of an arm moved into `fn parse_one_or_more(&self, expr, state)`):
+        its body translated with the helper's sub-expression parameters bound to the caller's children."""
+        if self.crate is None or self.depth >= 3 or not isinstance(path, str):
+            return None
+        h = self.crate.fn(path)
+        if h is None or h.get("body") is None or any(
+                kind(x) in ("Call", "MethodCall") and callee(x) == path for x in hirq.walk(h["body"])):
+            return None
+        child_of = {}
+        for prm, a in zip(h["params"], args):
+            if prm.get("k") != "PBind":
+                continue
+            ci = self.child_index(a)
+            if not (isinstance(ci, tuple) and ci and ci[0] in ("?", "field")):
+                child_of[prm["name"]] = ci
+        sub = HirFront(h, child_of, self.rec, self.skipc, self.rulec, self.rule_fn_prefix, crate=self.crate,
+                       depth=self.depth + 1)
+        t = sub.term(h["body"])
+        self.problems.extend("%s: %s" % (h["name"], p) for p in sub.problems)
+        return t
 
     def fn_value(self, path):
         if path in self.skipc or path.endswith("::hidden::skip"):
